@@ -50,6 +50,9 @@ WORKER_QUALNAMES = ("RandomLineAccessFile._file_seek", "RandomLineAccessFile._re
                     "MemoryMappedRandomLineAccessFile._read_next_line", "MapAccessFile.__getitem__",
                     "MapAccessFile.reopen_if_needed")
 WORKER_ROLES = ["workerC0"]
+# failpoints only at the statements of reopen_if_needed (i.e. instead of its close() / open() calls as a whole): a fault in
+# the middle of open() itself (file opened, mmap failed) leaves a half-open object - robustness the property does not ask for
+FAULT_QUALNAMES = ("RandomLineAccessFile.reopen_if_needed", "MapAccessFile.reopen_if_needed")
 RANDOM_K = {"quick": 6, "thorough": 80}
 DISTINCT_BY_PLAN = True
 VARIANTS = ["RandomLineAccessFile", "MapAccessFile", "MemoryMappedRandomLineAccessFile", "RecordFile", "RandomLineAccessFile",
@@ -62,7 +65,8 @@ def gen_base(rng, tier, index):
             "children": rng.choice([1, 2, 3, 4, 8]) if tier == "thorough" else rng.choice([1, 2, 3, 4]),
             "workers": 2, "fork_style": ["os.fork", "mp", "grand"][index % 3], "reads": rng.choice([40, 80, 120]),
             "parent_reads_before": rng.choice([0, 3, 10]), "seed": rng.randrange(1 << 20),
-            "map_from_file": rng.random() < 0.5, "pace": rng.choice([0, 0, 0.0005]), "calls": []}
+            "map_from_file": rng.random() < 0.5, "pace": rng.choice([0, 0, 0.0005]), "calls": [],
+            "first_follows_parent": index % 2 == 0}
 
 
 def findings(case, result, res):
@@ -79,7 +83,20 @@ def owns(kind, mech, case, result):
 
 
 def extra_runs(case, res, scratch, tier, rng):
-    """The same workload under strace -f: descriptor ownership per process."""
+    """The same workload under strace -f: descriptor ownership per process; once plain and once per function of
+    FAULT_QUALNAMES with an injected OSError at its last statement (first occurrence, in the children)."""
+    _strace_run(case, res, scratch, tier, None)
+    done = set()
+    for role, qn, rel in reversed(pe.worker_sites(tuple(FAULT_QUALNAMES))):
+        if qn in done or not qn.endswith("reopen_if_needed"):
+            continue
+        done.add(qn)
+        if ("MapAccessFile" in qn) != (case["variant"] == "MapAccessFile"):
+            continue
+        _strace_run(case, res, scratch, tier, [["worker*", qn, rel, 1, "raise_os", 24]])
+
+
+def _strace_run(case, res, scratch, tier, plan):
     d = os.path.join(scratch, "strace")
     shutil.rmtree(d, ignore_errors=True)
     os.makedirs(d)
@@ -88,6 +105,8 @@ def extra_runs(case, res, scratch, tier, rng):
     tp = os.path.join(d, "trace.txt")
     c = dict(case)
     c["reads"] = min(case["reads"], 40)
+    if plan:
+        c["plan"] = plan
     with open(cp, "w") as f:
         json.dump(c, f)
     env = dict(os.environ)
@@ -119,6 +138,8 @@ def extra_runs(case, res, scratch, tier, rng):
     res.count("reads_compared", total)
     for mech, summary in fs:
         res.violation(mech, "[under strace] " + summary, {"case": c})
+    if any(e.get("recovered") for e in events if e["ev"] == "reads_done"):
+        res.count("strace_runs_with_recovered_faults")
     viol, stats = forkread.check_trace(tp, done[0]["data_path"])
     res.count("strace_syscalls_on_data_file", stats["syscalls_on_data_file"])
     res.count("strace_opens_of_data_file", stats["opens_of_data_file"])
@@ -129,7 +150,7 @@ def extra_runs(case, res, scratch, tier, rng):
     if viol:
         res.violation("inherited-descriptor-used", f"{case['variant']} ({case['fork_style']}, {case['children']} children): "
                       + viol[0], {"case": c, "trace_findings": viol, "stats": stats, "strace": True})
-    res.seen(("strace", case["variant"], case["fork_style"], case["children"], case["seed"]))
+    res.seen(("strace", case["variant"], case["fork_style"], case["children"], case["seed"], repr(plan)))
 
 
 def plan(tier, seed):
@@ -148,7 +169,8 @@ def replay(doc):
         res = common.ShardResult()
         sc = common.scratch_dir("vf-c18-replay-")
         try:
-            extra_runs(doc["replay"]["case"], res, sc, "quick", None)
+            rc = doc["replay"]["case"]
+            _strace_run(rc, res, sc, "quick", rc.get("plan"))
         finally:
             shutil.rmtree(sc, ignore_errors=True)
         if res.violations:
